@@ -29,7 +29,7 @@ type Program struct {
 	Whole   bool
 
 	globalErr map[*ssa.Global]bool
-	expanding map[*ssa.Function]bool // new helpers whose results are being expanded (recursion guard)
+	expanding map[*ssa.Function]bool   // new helpers whose results are being expanded (recursion guard)
 	canon     map[*ssa.Function]string // renamed functions: current function -> key it had on the reference tree
 	Renamed   []string                 // "old key -> new key", for the evidence
 	funcByKey map[string]*ssa.Function
